@@ -825,3 +825,38 @@ fn run_in_child(db: &Path, k: u64, gid: &GroupId, keys: &nostr::Keys, target: &T
     // killed by SIGABRT => no exit code
     Ok(st.code().is_none())
 }
+
+
+// ---- used by C14: the same runs, returning the secrets of the scenario's world
+pub fn exec_for_logs(case: &Case) -> (crate::needles::Needles, Result<CaseReport, Failure>) {
+    let mut needles = crate::needles::Needles::default();
+    if matches!(case.scenario, Scenario::RawSnapshot | Scenario::RawRollback | Scenario::RawRelays) {
+        let mut rep = CaseReport::default();
+        let r = raw_case(case, &mut rep).map(|_| rep);
+        for g in 0..sm::N_GROUPS {
+            needles.add_bytes_with_debug_list(sm::gid(g).as_slice(), "MLS group id");
+            needles.add_bytes_with_debug_list(&sm::nid(g), "Nostr group id");
+        }
+        return (needles, r);
+    }
+    match build(case) {
+        Ok(Some(b)) => {
+            crate::props::c14::collect_secret_needles(&b.world, &mut needles);
+            let mut rep = CaseReport::default();
+            let mut trace = vec![];
+            let r = enumerate(case, &b, Mode::Normal, &mut rep, &mut trace).map(|_| rep);
+            crate::props::c14::collect_secret_needles(&b.world, &mut needles);
+            (needles, r)
+        }
+        Ok(None) => (needles, Ok(CaseReport::default())),
+        Err(f) => (needles, Err(f)),
+    }
+}
+
+pub fn strategy_for_logs() -> BoxedStrategy<Case> {
+    strategy(Tier::Quick).prop_map(|mut c| {
+        c.stride = 5;
+        c.abort_in_child = false;
+        c
+    }).boxed()
+}
